@@ -56,6 +56,10 @@ pub struct Dir {
     pub assumed_from: Option<String>,
 }
 
+thread_local! {
+    pub static LOST_HINTS: std::cell::RefCell<Vec<String>> = std::cell::RefCell::new(Vec::new());
+}
+
 pub fn die(kind: &str, detail: &str) -> ! {
     println!("VP-EXTRACT-ERROR: {}: {}", kind, detail);
     std::process::exit(3);
@@ -368,6 +372,30 @@ fn locate(file: &syn::File, d: &Dir) -> Located {
             };
             if k == ikind && name == iname {
                 found.push(Located { range, kind: k, in_trait_impl: false, in_trait: false });
+            }
+        }
+        if found.is_empty() && ikind == "struct" {
+            // structs declared inside `pin_project! { … }` (pin-project-lite): the macro re-emits the struct as
+            // written (plus projection types), so the text inside the macro is the definition
+            for it in top_items(file, mp) {
+                if let syn::Item::Macro(m) = it {
+                    if m.mac.path.segments.last().map(|s| s.ident == "pin_project").unwrap_or(false) {
+                        if let Ok(inner) = syn::parse2::<syn::File>(m.mac.tokens.clone()) {
+                            for ii in &inner.items {
+                                if let syn::Item::Struct(st) = ii {
+                                    if st.ident == iname {
+                                        found.push(Located {
+                                            range: attrs_start(&st.attrs, br(st.span()).start)..br(st.span()).end,
+                                            kind: "struct",
+                                            in_trait_impl: false,
+                                            in_trait: false,
+                                        });
+                                    }
+                                }
+                            }
+                        }
+                    }
+                }
             }
         }
     } else if cont.starts_with("trait ") {
@@ -969,9 +997,15 @@ fn process_fn(src_with_attrs: &str, d: &Dir, loc: &Located) -> FnOut {
                     }
                 }
             }
-            let pos = pos.unwrap_or_else(|| {
-                die("anchor-lost", &format!("{}: anchor {:?} #{} not found", d.item, a.anchor, a.occurrence))
-            });
+            let pos = match pos {
+                Some(p) => p,
+                None => {
+                    // a lost *hint* anchor does not stop the run: the hint is dropped and recorded; the caller
+                    // treats a proof that then fails in this function as undecided, not as a violation
+                    LOST_HINTS.with(|l| l.borrow_mut().push(format!("{}: anchor {:?} #{}", d.item, a.anchor, a.occurrence)));
+                    continue;
+                }
+            };
             let mut sf = StmtFinder { pos, all: vec![] };
             sf.visit_impl_item_fn(&f);
             sf.all.sort_by_key(|r| r.end - r.start);
@@ -1070,6 +1104,7 @@ fn main() {
                 let (src, ast) = files.get(&d.file).unwrap();
                 let loc = locate(ast, &d);
                 let item_src = &src[loc.range.clone()];
+                LOST_HINTS.with(|l| l.borrow_mut().clear());
                 let (text, rules, name) = match loc.kind {
                     "fn" => {
                         let o = process_fn(item_src, &d, &loc);
@@ -1108,7 +1143,7 @@ fn main() {
                 let rules_json: Vec<String> = rules.iter().map(|(k, v)| format!("{}:{}", json_str(k), v)).collect();
                 let tags_json: Vec<String> = d.tags.iter().map(|t| json_str(t)).collect();
                 metas.push(format!(
-                    "{{\"file\":{},\"container\":{},\"item\":{},\"name\":{},\"kind\":{},\"src_lines\":[{},{}],\"gen_lines\":[{},{}],\"rules\":{{{}}},\"tags\":[{}],\"external_body\":{},\"assumed_from\":{},\"src_text\":{},\"gen_text\":{}}}",
+                    "{{\"file\":{},\"container\":{},\"item\":{},\"name\":{},\"kind\":{},\"src_lines\":[{},{}],\"gen_lines\":[{},{}],\"rules\":{{{}}},\"tags\":[{}],\"external_body\":{},\"lost_hints\":{},\"assumed_from\":{},\"src_text\":{},\"gen_text\":{}}}",
                     json_str(&d.file),
                     json_str(&d.container),
                     json_str(&d.item),
@@ -1121,6 +1156,7 @@ fn main() {
                     rules_json.join(","),
                     tags_json.join(","),
                     d.external_body,
+                    serde_json::to_string(&LOST_HINTS.with(|l| l.borrow().clone())).unwrap(),
                     json_str(d.assumed_from.as_deref().unwrap_or("")),
                     json_str(item_src),
                     json_str(&text),
